@@ -175,7 +175,8 @@ def force(v):
 
 GROUPS = [guard(lwl_post), guard(ll_post), guard(lse_of_lwl), guard(row_local), guard(definedness)]
 SHARED = [("C17", "set_variances", ["C17.set.variances"]), ("C17", "set_thresholds", ["C17.set.thresholds"]), ("C17", "set_weights", ["C17.set.weights"]),
-          ("C17", "gnorms_lazy", ["C17.gnorms.lazy"]), ("C17", "init_inv", ["C17.init"]), ("C02", "estep_post", ["C02.estep.log_likelihood"])]
+          ("C17", "gnorms_lazy", ["C17.gnorms.lazy"]), ("C17", "init_inv", ["C17.init"]), ("C17", "mstep_inv", ["C17.mstep.ml", "C17.mstep.map"]),
+          ("C17", "set_means", ["C17.set.means"]), ("C02", "estep_post", ["C02.estep.log_likelihood"])]
 
 
 def ctrl_perturbed_spec(ctx):
